@@ -295,15 +295,39 @@ def _arith_outer(ctx, d_default, d_custom):
         exprs.append(t.format(a=scm.hexlit(a), b=scm.hexlit(b)))
         meta.append((t, a, b))
     def run_bounded(d):
-        # a build whose arithmetic is broken may loop: small chunks, short timeouts, give up after 3 dead cases
-        res, dead = [], 0
-        for lo in range(0, len(exprs), 250):
-            if dead >= 3:
-                res += [None] * len(exprs[lo:lo + 250])
-                continue
-            part = scm.run_cases(d, exprs[lo:lo + 250], timeout=(40 if not ctx.thorough else 120), chunk=250)
-            dead += sum(1 for x in part if x is None or x.startswith(("TIMEOUT", "CRASH")))
-            res += part
+        # a build whose arithmetic is broken may loop on MANY cases (round 3: seeded change b3 made the check run for 70 minutes,
+        # vlib.scm.run_cases pays one full timeout per hanging case): own runner, at most 3 dead cases per build, then give up
+        res, dead, lo, tmo = [None] * len(exprs), 0, 0, (40 if not ctx.thorough else 120)
+        while lo < len(exprs) and dead < 3:
+            hi = min(len(exprs), lo + 250)
+            path = os.path.join(B.SCRATCH, "tmp-c09-arith-%d.scm" % os.getpid())
+            with open(path, "w") as fh:
+                fh.write("\n".join([scm.PRELUDE] + ["(verif-case %d %s)" % (i, exprs[i]) for i in range(lo, hi)] + ['(write-string "DONE")(newline)']))
+            try:
+                r = B.run_chibi(d, [path], timeout=tmo)
+                out, rc = r.stdout, r.returncode
+            except subprocess.TimeoutExpired as e:
+                out, rc = (e.stdout.decode() if isinstance(e.stdout, bytes) else (e.stdout or "")), "TIMEOUT"
+            finally:
+                os.unlink(path)
+            last, done = lo - 1, False
+            for line in out.split("\n"):
+                sp = line.find(" ")
+                if line == "DONE":
+                    done = True
+                elif sp > 0 and line[:sp].isdigit() and lo <= int(line[:sp]) < hi:
+                    last = max(last, int(line[:sp])); res[int(line[:sp])] = line[sp + 1:]
+                elif line and last >= lo and res[last] is not None and not done:
+                    res[last] += "\n" + line
+            if done:
+                lo = hi
+            else:           # the case after the last completed one hung or killed the process
+                dead += 1
+                if last + 1 < hi:
+                    res[last + 1] = "TIMEOUT" if rc == "TIMEOUT" else "CRASH rc=%s" % rc
+                lo = last + 2
+        if dead >= 3:
+            ctx.note("arithmetic expressions under build %s: gave up after 3 hanging / crashing cases (%d of %d expressions not run)" % (os.path.basename(d), sum(1 for x in res if x is None), len(exprs)))
         return res
     od = run_bounded(d_default)
     oc = run_bounded(d_custom)
@@ -323,8 +347,8 @@ def _arith_outer(ctx, d_default, d_custom):
                 if p is None or p[1] != v or (p[0] == "f") != (FIXMIN <= v <= FIXMAX):
                     return False
             return True
-        if x is None and y is None:
-            continue          # skipped after repeated dead cases (already reported)
+        if x is None or y is None:
+            continue          # not run: the runner gave up after 3 dead cases in that build (those cases are reported below as TIMEOUT / CRASH results)
         if not ok(y):
             if ok(x):
                 ctx.violation("customll-arith:" + t.split()[0].strip("("), input=e, expected=x, observed_customll=y, replay=replay,
